@@ -3,27 +3,28 @@
 run, undo) and store which checks report it in meta.json['detected_by']. usage: seed_record.py [id ...]"""
 import json, os, re, subprocess, sys
 ids = sys.argv[1:] or sorted(os.listdir('/verif/seeded'))
+REPO = os.environ.get('SEED_REPO', '/repo')  # a scratch worktree at /repo's HEAD may stand in while /repo is busy
 for sid in ids:
     d = os.path.join('/verif/seeded', sid)
     meta = json.load(open(os.path.join(d, 'meta.json')))
-    assert subprocess.run(['git', '-C', '/repo', 'status', '--porcelain', '--untracked-files=no'], capture_output=True, text=True).stdout.strip() == '', '/repo not clean'
-    r = subprocess.run(['git', '-C', '/repo', 'apply', os.path.join(d, 'patch.diff')], capture_output=True, text=True)
+    assert subprocess.run(['git', '-C', REPO, 'status', '--porcelain', '--untracked-files=no'], capture_output=True, text=True).stdout.strip() == '', '/repo not clean'
+    r = subprocess.run(['git', '-C', REPO, 'apply', os.path.join(d, 'patch.diff')], capture_output=True, text=True)
     if r.returncode != 0:
         print(sid, 'APPLY FAILED', r.stderr[:300]); continue
     res = {}
     try:
         for i in range(1, 21):
             p = 'C%02d' % i
-            out = subprocess.run(['./check', p, '--no-evidence'], cwd='/verif', capture_output=True, text=True).stdout
+            out = subprocess.run(['./check', p, '--no-evidence', '--repo', REPO], cwd='/verif', capture_output=True, text=True).stdout
             hits = re.findall(r'^\[(C\d\d\.\w+)\] (.+?): \S* :: ', out, flags=re.M)
             if 'CHECK-BROKEN' in out:
                 res[p] = ['CHECK-BROKEN']
             elif hits:
                 res[p] = sorted({'%s %s' % h for h in hits})
     finally:
-        subprocess.run(['git', '-C', '/repo', 'checkout', '--', '.'])
+        subprocess.run(['git', '-C', REPO, 'checkout', '--', '.'])
     meta['detected_by'] = res
     meta['detected_by_own_property_check'] = meta.get('property') in res
-    meta['what_was_run'] = 'git -C /repo apply seeded/%s/patch.diff; ./check C01..C20 --no-evidence; git -C /repo checkout -- .' % sid
+    meta['what_was_run'] = 'git -C %s apply seeded/%s/patch.diff; ./check C01..C20 --no-evidence --repo %s; git -C %s checkout -- .' % (REPO, sid, REPO, REPO)
     json.dump(meta, open(os.path.join(d, 'meta.json'), 'w'), indent=1)
     print(sid, meta.get('property'), 'own-check' if meta['detected_by_own_property_check'] else ('sibling-only' if res else 'MISSED'), {k: v[:2] for k, v in res.items()})
